@@ -627,28 +627,42 @@ def rule_translation_corpus(rep: Report, repo: Repo):
 def rule_runtime_support(rep: Report, repo: Repo):
     R = "E9.runtime"
     loc = lambda n: repo.loc("algorithm_parsing", n)
+    from .resolve import env_at as _env_at, resolved as _resolved
+    from .sem import Scope as _Scope, canon as _canon, ctext as _ctext, inline as _inline, outcomes as _outcomes
     f = repo.find("algorithm_parsing::_zero_sum", R)
     rets = [n for n in ast.walk(f) if isinstance(n, ast.Return)]
     ok = False
-    if len(rets) == 1 and isinstance(rets[0].value, ast.Call) and call_name(rets[0].value) == "sum":
-        c = rets[0].value
-        kw = {k.arg: norm(k.value) for k in c.keywords}
-        start = kw.get("start") or (norm(c.args[1]) if len(c.args) > 1 else None)
-        g = c.args[0] if c.args else None
-        if isinstance(g, (ast.GeneratorExp, ast.ListComp)) and len(g.generators) == 1:
-            gen = g.generators[0]
-            v = norm(gen.target)
-            filt = [norm(i) for i in gen.ifs]
-            ok = start == "zero" and norm(g.elt) == v and norm(gen.iter) == "terms" and filt == [f"{v} is not zero"] \
-                and f.args.vararg is not None and f.args.vararg.arg == "terms"
-    rep.check(ok, R, "algorithm_parsing::_zero_sum adds every term that is not the `zero` sentinel, starting from `zero`",
-              norm(rets[0]) if rets else "", loc(f))
+    detail = ""
+    if len(rets) == 1:
+        c = _canon(_resolved(rets[0].value, _env_at(rets[0], f)))
+        detail = norm(c)
+        if isinstance(c, ast.Call) and call_name(c) == "sum":
+            kw = {k.arg: norm(k.value) for k in c.keywords}
+            start = kw.get("start") or (norm(c.args[1]) if len(c.args) > 1 else None)
+            g = c.args[0] if c.args else None
+            if isinstance(g, (ast.GeneratorExp, ast.ListComp)) and len(g.generators) == 1:
+                gen = g.generators[0]
+                v = norm(gen.target)
+                filt = [norm(_canon(i)) for i in gen.ifs]
+                ok = start == "zero" and norm(g.elt) == v and norm(gen.iter) == "terms" and filt == [f"{v} is not zero"] \
+                    and f.args.vararg is not None and f.args.vararg.arg == "terms"
+    rep.check(ok, R, "algorithm_parsing::_zero_sum adds every term that is not the `zero` sentinel, starting from `zero`", detail, loc(f))
     f = repo.find("algorithm_parsing::_safe_divide", R)
-    rets = [norm(n.value) for n in ast.walk(f) if isinstance(n, ast.Return)]
-    params = [a.arg for a in f.args.args]
-    ok = len(params) == 2 and rets and rets[0] == f"{params[0]} / {params[1]}" and \
-        all(r in (f"{params[0]} / {params[1]}", f"{params[0]} * (1 / {params[1]})") for r in rets)
-    rep.check(ok, R, "algorithm_parsing::_safe_divide returns numerator / denominator (or numerator * (1 / denominator))", str(rets), loc(f))
+    params = [a_.arg for a_ in f.args.args]
+    if len(params) != 2:
+        raise AnalysisError(R, "_safe_divide signature")
+    n_, d_ = params
+    vals = []
+    trys = [t for t in f.body if isinstance(t, ast.Try)]
+    blocks = [f.body] if not trys else [trys[0].body] + [h.body for h in trys[0].handlers]
+    for blk in blocks:
+        for o in _outcomes(blk, None, env={}, expand=False):
+            if o.kind == "return":
+                vals.append(norm(o.value))
+    QUOT = (f"{n_} / {d_}",)
+    FALLBACK = (f"{n_} * (1 / {d_})", f"1 / {d_} * {n_}", f"{n_} * {d_} ** (-1)")
+    ok = bool(vals) and vals[0] in QUOT and all(v in QUOT + FALLBACK for v in vals)
+    rep.check(ok, R, "algorithm_parsing::_safe_divide returns numerator / denominator (or numerator * (1 / denominator))", str(vals), loc(f))
     # sentinels (series.py)
     tree = repo.trees["series"]
     zero = [n for n in tree.body if isinstance(n, ast.ClassDef) and n.name == "Zero"]
@@ -676,16 +690,34 @@ def rule_runtime_support(rep: Report, repo: Repo):
     rep.check(sing.get("zero") == "Zero()" and sing.get("one") == "One()" and sing.get("PENDING") == "Pending()", R,
               "series: zero / one / PENDING are module-level singletons (compared by identity)", "", repo.loc("series", zero[0]))
     cont = repo.find("series::BlockSeries::__contains__", R)
-    r = [norm(n.value) for n in ast.walk(cont) if isinstance(n, ast.Return)]
-    rep.check(r == ["self._data.get(item) is not zero"], R,
+    outs = [o for o in _outcomes(cont.body, None, env={}, expand=False) if o.kind == "return"]
+    got = sorted({_ctext(o.value) for o in outs})
+    rep.check(got == ["self._data.get(item) is not zero"], R,
               "series::BlockSeries.__contains__ is False exactly for elements known to be the `zero` sentinel",
-              "this is what lets `start = 0` pin an order and product_by_order skip absent terms", repo.loc("series", cont))
+              f"{got}; this is what lets `start = 0` pin an order and product_by_order skip absent terms", repo.loc("series", cont))
     gi = repo.find("series::BlockSeries::__getitem__", R)
     rr = [n for n in ast.walk(gi) if isinstance(n, ast.Return) and isinstance(n.value, ast.Call) and (call_name(n.value) or "").endswith("masked_where")]
-    ok = len(rr) == 1 and [norm(a) for a in rr[0].value.args] == ["_mask(result)", "result"]
-    mk = sing.get("_mask")
-    rep.check(ok and mk is not None and "entry is zero" in mk, R,
-              "series::BlockSeries.__getitem__ masks exactly the absent (`zero`) elements of a multi-element result", str(mk)[:80], repo.loc("series", gi))
+    ok = len(rr) == 1 and [norm(a_) for a_ in rr[0].value.args] == ["_mask(result)", "result"]
+    # _mask = np.vectorize(<entry is zero>, otypes=[bool]): the predicate may be a lambda or a module-level function
+    mk = [n for n in tree.body if isinstance(n, ast.Assign) and norm(n.targets[0]) == "_mask"]
+    pred_ok, pred_txt = False, "missing"
+    if len(mk) == 1 and isinstance(mk[0].value, ast.Call) and call_name(mk[0].value) == "np.vectorize" and mk[0].value.args:
+        pr = mk[0].value.args[0]
+        kw = {k.arg: norm(k.value) for k in mk[0].value.keywords}
+        body = None
+        if isinstance(pr, ast.Lambda) and len(pr.args.args) == 1:
+            body, par = pr.body, pr.args.args[0].arg
+        elif isinstance(pr, ast.Name):
+            fn = next((n for n in tree.body if isinstance(n, ast.FunctionDef) and n.name == pr.id and len(n.args.args) == 1), None)
+            if fn is not None:
+                ro = [o for o in _outcomes(fn.body, None, env={}, expand=False) if o.kind == "return"]
+                if len(ro) == 1:
+                    body, par = ro[0].value, fn.args.args[0].arg
+        if body is not None:
+            pred_txt = _ctext(body)
+            pred_ok = pred_txt == f"{par} is zero" and kw.get("otypes") == "[bool]"
+    rep.check(ok and pred_ok, R,
+              "series::BlockSeries.__getitem__ masks exactly the absent (`zero`) elements of a multi-element result", pred_txt[:80], repo.loc("series", gi))
     dflt = repo.find("series::BlockSeries::__init__", R)
     from .paths import eval_bool
     from .sem import canon, outcomes
@@ -778,17 +810,23 @@ def rule_deletion_safe(rep: Report, repo: Repo):
         return
     rep.ok(R, inst, f"every deleting path is guarded by membership in {sorted(tables)}", loc(d))
     # the table is filled from the data each term's series starts with
-    ctors = [n for n in own_nodes(sc) if isinstance(n, ast.Assign) and isinstance(n.value, ast.Call) and call_name(n.value) == "BlockSeries"
-             and isinstance(n.targets[0], ast.Subscript) and norm(n.targets[0].value) == "series"]
+    from .resolve import resolved as _res
+    # `series[<term>] = BlockSeries(..., data=D, ...)`, possibly through a local; the data expression itself keeps its own locals
+    stores = [n for n in own_nodes(sc) if isinstance(n, ast.Assign) and isinstance(n.targets[0], ast.Subscript) and norm(n.targets[0].value) == "series"]
+    ctors = []
+    for n in stores:
+        v = _res(n.value, env_at(n, sc))
+        if isinstance(v, ast.Call) and call_name(v) == "BlockSeries":
+            ctors.append((n, v))
     if len(ctors) != 1:
         raise AnalysisError(R, f"{len(ctors)} constructions `series[...] = BlockSeries(...)`")
-    ct = ctors[0]
+    ct, ctor_call = ctors[0]
     env = env_at(ct, sc)
     key = rtext(ct.targets[0].slice, env)
-    data_kw = {k.arg: k.value for k in ct.value.keywords}.get("data")
+    data_kw = {k.arg: k.value for k in ctor_call.keywords}.get("data")
     if data_kw is None:
         raise AnalysisError(R, "terms are constructed without `data=`")
-    D = rtext(data_kw, env)
+    D = norm(data_kw)
     for tname in sorted(tables):
         fills = [n for n in own_nodes(sc) if isinstance(n, ast.Assign) and isinstance(n.targets[0], ast.Subscript)
                  and norm(n.targets[0].value) == tname]
@@ -798,7 +836,9 @@ def rule_deletion_safe(rep: Report, repo: Repo):
         if len(fills) == 1 and same_block:
             e2 = env_at(fills[0], sc)
             k2, v2 = rtext(fills[0].targets[0].slice, e2), rtext(fills[0].value, e2)
-            allowed = (D, f"{D} or {{}}", f"{D} or ()", f"set({D} or ())", f"dict({D} or {{}})", f"({D} or {{}}).keys()", f"frozenset({D} or ())")
+            Ds = (D, D.replace(", None)", ")"))
+            allowed = tuple(t for D_ in Ds for t in (D_, f"{D_} or {{}}", f"{D_} or ()", f"set({D_} or ())", f"dict({D_} or {{}})",
+                                                    f"({D_} or {{}}).keys()", f"frozenset({D_} or ())"))
             ok = k2 == key and v2 in allowed
             detail = f"`{tname}[{k2}] = {v2}`; series data `{D}`"
         rep.check(ok, R, f"algorithm_parsing::series_computation `{tname}` holds, for every term, the keys of the data its series starts with",
@@ -875,6 +915,19 @@ def rule_exec_scope(rep: Report, repo: Repo):
         if o.kind != "return":
             continue
         e = o.value
+        # the returned object must not have been modified after it was built: resolution follows construction, not mutation
+        ret_names = {n_.id for n_ in ast.walk(o.node.value) if isinstance(n_, ast.Name)} \
+            if isinstance(o.node, ast.Return) and o.node.value is not None else set()
+        ret_names -= {a}
+        for ev in o.events:
+            touched = {x.id for x in ast.walk(ev) if isinstance(x, ast.Name)} & ret_names
+            if not touched:
+                continue
+            pure = isinstance(ev, ast.Expr) and isinstance(ev.value, ast.Call) and isinstance(ev.value.func, ast.Attribute) \
+                and ev.value.func.attr in ("conj", "conjugate", "copy", "transpose", "toarray", "tocsr", "tocsc") and not ev.value.keywords
+            if not pure:
+                raise AnalysisError(R, f"{fmod}::{fn.name} (bound to `Dagger`): the returned object is modified by `{norm(ev)[:60]}` before it is "
+                                       "returned; the effect of that statement is not followed")
         # storage-format conversions on top do not change the value
         while isinstance(e, ast.Call) and isinstance(e.func, ast.Attribute) and e.func.attr in ("tocsr", "tocsc", "tocoo", "copy", "asformat"):
             e = e.func.value
@@ -893,3 +946,75 @@ def rule_exec_scope(rep: Report, repo: Repo):
         raise AnalysisError(R, f"{fmod}::{fn.name} (bound to `Dagger`) returns `{unknown[0][:60]}`: not recognised as the adjoint")
     if not wrong:
         rep.ok(R, "algorithm_parsing::series_computation exec scope binds `Dagger` to the adjoint", f"{fmod}::{fn.name}: every path returns the adjoint", loc(es[0]))
+
+
+# ---------------------------------------------------------------------------
+# start values: what `start = 0 / 1 / "name"` pins
+# ---------------------------------------------------------------------------
+
+
+def rule_start_data(rep: Report, repo: Repo, all_programs: bool = True):
+    """`start = 0` pins `zero` on EVERY block at order zero, `start = 1` pins `one` on the diagonal blocks, `start = "A"` pins
+    the zeroth order of input A on EVERY block (also where that element is the `zero` sentinel: an unpinned block would be
+    computed from the term's definition instead).  Decided on the resolved `data` table of series_computation."""
+    from .core import own_nodes
+    from .resolve import env_at, resolved
+    from .sem import Scope, canon, inline
+    R = "E9.start_data"
+    sc = repo.find("algorithm_parsing::series_computation", R)
+    loc = lambda n: repo.loc("algorithm_parsing", n)
+    tabs = [n for n in own_nodes(sc) if isinstance(n, ast.Assign) and isinstance(n.value, ast.Dict)
+            and any(isinstance(k, ast.Constant) and k.value == "zero_data" for k in n.value.keys if k is not None)]
+    if len(tabs) != 1:
+        raise AnalysisError(R, "table of start data (with a `zero_data` entry) not found")
+    tab = tabs[0]
+    env = env_at(tab, sc, opaque=("n_infinite", "shape"))
+    scope = Scope(repo.trees["algorithm_parsing"], tab)
+    ALL = ("[(_v0, _v1) for _v0 in range(shape[0]) for _v1 in range(shape[1])]",)
+    DIAG = ("[(_v0, _v0) for _v0 in range(shape[0])]",)
+    ZO = "(0,) * n_infinite"
+
+    def pins(e, what):
+        """{block + zeroth_order: VALUE for block in BLOCKS} without a filter -> (blocks text, value text with the key as K) or None"""
+        e = canon(resolved(inline(resolved(e, env), scope), env))  # closure variables of an inlined helper are resolved too
+        if not (isinstance(e, ast.DictComp) and len(e.generators) == 1):
+            return None
+        g = e.generators[0]
+        b = norm(g.target)
+        key = norm(e.key)
+        if key not in (f"{b} + {ZO}", f"({b}[0], {b}[1], *{ZO})", f"(*{b}, *{ZO})"):
+            return None
+        return norm(g.iter), norm(e.value).replace(key, "K"), [norm(i).replace(key, "K") for i in g.ifs]
+    d = tab.value
+    named = {k.value: v for k, v in zip(d.keys, d.values) if isinstance(k, ast.Constant)}
+    z = pins(named.get("zero_data", ast.Constant(None)), "zero")
+    i1 = pins(named.get("identity_data", ast.Constant(None)), "one")
+    if z is None or i1 is None:
+        raise AnalysisError(R, "zero_data / identity_data are not comprehensions of the form {block + zeroth_order: value for block in blocks}")
+    ok = z[0] in ALL and z[1] == "zero" and not z[2] and i1[0] in DIAG and i1[1] == "one" and not i1[2]
+    rep.check(ok, R, "algorithm_parsing::series_computation start = 0 pins zero on every block, start = 1 pins the identity on diagonal blocks, at order zero",
+              f"zero_data over {z[0][:60]} -> {z[1]} if {z[2]}; identity_data over {i1[0][:50]} -> {i1[1]} if {i1[2]}", loc(tab))
+    spreads = [v for k, v in zip(d.keys, d.values) if k is None]
+    dyn = [v for v in spreads if isinstance(v, ast.DictComp)]
+    if len(dyn) != 1:
+        raise AnalysisError(R, "the `<name>_data` entries of the inputs are not one dictionary comprehension")
+    dc = dyn[0]
+    src = [g for g in dc.generators if isinstance(g.iter, ast.Call) and norm(g.iter) == "series.items()" and isinstance(g.target, ast.Tuple)
+           and len(g.target.elts) == 2]
+    if len(src) != 1:
+        raise AnalysisError(R, "the input start data does not iterate `series.items()`")
+    ser = norm(src[0].target.elts[1])
+    p = pins(dc.value, "series")
+    if p is None:
+        raise AnalysisError(R, f"input start data `{norm(dc.value)[:60]}` is not {{block + zeroth_order: <series>[...] for block in all blocks}}")
+    if not all_programs and p[2] and all(f_ in ("value is not zero", f"{ser}[K] is not zero") for f_ in
+                                         [x.replace(f"(value := {ser}[K])", "value") for x in p[2]]) and p[1] in ("value", f"{ser}[K]") and p[0] in ALL:
+        # the shipped algorithms only start H_tilde from H_0, whose definition gives `zero` at order zero anyway: unpinned absent
+        # blocks do not change their values (they do for general programs: C09 runs this rule with all_programs=True)
+        rep.ok(R, 'algorithm_parsing::series_computation start = "A" pins every present block of A at order zero (sufficient for the shipped algorithms)',
+               f"filter {p[2]}", loc(dc))
+        return
+    ok = p[0] in ALL and p[1] == f"{ser}[K]" and not p[2]
+    rep.check(ok, R, 'algorithm_parsing::series_computation start = "A" pins the zeroth order of A on every block (absent blocks included)',
+              f"over {p[0][:60]} -> {p[1]}" + (f" filtered by {p[2]}: blocks that fail the filter are not pinned and would be computed from the "
+                                              "term's definition at order zero" if p[2] else ""), loc(dc))
